@@ -315,3 +315,57 @@ Definition add_description (has_deps : bool) (recorded : list nat) : notificatio
 Definition process_dependencies (form : dep_loop) (has_deps : bool) (outs : list bool) : list nat * notification :=
   if has_deps then let rec := pd_loop form O outs in (rec, add_description true rec)
   else ([], NoNotice).
+
+(* ------------------------------------------------------------------------------------------------ *)
+(** * Several codemods in one run: the package stores are parsed once (`repo_manager.package_stores` is a cached
+    property) and `DependencyWriter.add` records every new name in the store's set BEFORE and REGARDLESS of the write. *)
+
+(** What the model keeps of a PackageStore + its writer: the names held, whether `add_to_file` yields a changeset at
+    all (e.g. a pyproject.toml without `dependencies`, a setup.py without install_requires never does), and names the
+    writer refuses although the store does not hold them (oracle quirk of tomlkit: KeyAlreadyPresent). *)
+Record store_st := { st_declared : list str; st_writable : bool; st_refused : list str }.
+
+(** `DependencyManager(store, dir).write(deps, dry_run)`: the written dependencies ([] = None) and the store afterwards. *)
+Definition store_write (v : name_cmp) (s : store_st) (deps : list dep) : list dep * store_st :=
+  let new := add_deps v deps (st_declared s) in
+  let s' := {| st_declared := st_declared s ++ map dname new; st_writable := st_writable s; st_refused := st_refused s |} in
+  (if st_writable s && forallb (fun d => negb (mem_str (dname d) (st_refused s))) new then new else [], s').
+
+Definition stores := nat -> store_st.
+Definition upd_store (S : stores) (j : nat) (s : store_st) : stores := fun i => if Nat.eqb i j then s else S i.
+
+(** The loop of process_dependencies for one codemod over the store indices [idxs]; the log lists, per store offered
+    the dependencies, what was written to it. *)
+Fixpoint visit_stores (v : name_cmp) (form : dep_loop) (idxs : list nat) (deps : list dep) (S : stores)
+  : list (nat * list dep) * stores :=
+  match idxs with
+  | [] => ([], S)
+  | j :: r =>
+      let '(w, s') := store_write v (S j) deps in
+      let S' := upd_store S j s' in
+      match w, form with
+      | _ :: _, FirstWinsBreak => ([(j, w)], S')
+      | _, _ => let '(l, S'') := visit_stores v form r deps S' in ((j, w) :: l, S'')
+      end
+  end.
+
+Definition recorded_of (l : list (nat * list dep)) : list nat :=
+  map fst (List.filter (fun p => match snd p with [] => false | _ => true end) l).
+
+(** All codemods of a run, in order, over the shared stores. *)
+Fixpoint run_codemods (v : name_cmp) (form : dep_loop) (idxs : list nat) (cms : list (list dep)) (S : stores)
+  : list (list (nat * list dep)) * stores :=
+  match cms with
+  | [] => ([], S)
+  | deps :: r =>
+      let '(l, S') := match deps with [] => ([], S) | _ => visit_stores v form idxs deps S end in
+      let '(ls, S'') := run_codemods v form idxs r S' in
+      (l :: ls, S'')
+  end.
+
+(** the dependencies written to store [i] according to a log *)
+Definition writes_to (i : nat) (log : list (nat * list dep)) : list dep :=
+  flat_map (fun p => if Nat.eqb (fst p) i then snd p else []) log.
+
+Definition notice_of (deps : list dep) (l : list (nat * list dep)) : notification :=
+  add_description (match deps with [] => false | _ => true end) (recorded_of l).
